@@ -77,6 +77,9 @@ fn main() {
         i += 2;
     }
     silence_panics();
+    if std::env::var_os("KV_TRACE").is_some() {
+        common::TRACE.store(true, std::sync::atomic::Ordering::Relaxed);
+    }
 
     let (prop, rep, exhaustive, rule): (&str, Report, String, String) = match sub.as_str() {
         "c01" => c01::run(&cfg),
@@ -100,6 +103,10 @@ fn main() {
             std::process::exit(3)
         }
     };
+    let mut rep = rep;
+    for m in take_ub_check_panics() {
+        rep.fail("C01:std-ub-check-panic", "std ub_checks", format!("sub-command {}", sub), m, "no violated unsafe precondition".into());
+    }
     let json = rep.to_json(prop, &sub, &cfg, &exhaustive, &rule);
     match out {
         Some(p) => std::fs::write(&p, json).expect("write --out"),
